@@ -19,6 +19,7 @@
 package main
 
 import (
+	"github.com/massnetorg/mass-core/txscript"
 	"bufio"
 	"bytes"
 	"crypto/sha256"
@@ -521,18 +522,57 @@ func runOne(seed uint64, n int, out *bufio.Writer) error {
 		w4.Stop()
 
 		// ---- instance 3: import the mnemonic (possibly re-spaced) with index hints
+		variant, vname = respace(r, mnemonic)
+		exHint = []uint32{0, uint32(len(l2)), uint32(len(l2)) + 2, 1}[r.Intn(4)]
+		inHint = []uint32{0, 0, 2}[r.Intn(3)]
+		// in half of the lives the chain already pays addresses of this key chain BEYOND the hints, several per branch:
+		// the restore discovers them (gap-limit scan upwards from the hint) and must end with every address up to the
+		// last paid one, each on its branch and index, each signing with its own key (seed C04g: the second discovery
+		// of a branch overwrote the records of the first)
+		muEx, muIn := -1, -1
+		if r.Chance(50) {
+			var outs []sim.Out
+			pay := func(b, i uint32) {
+				if _, sh := rf.addr(b, i); sh != nil {
+					if pk, err := txscript.PayToWitnessScriptHashScript(sh); err == nil {
+						outs = append(outs, sim.Out{Script: pk, Value: int64(1+len(outs)) * 1000000})
+					}
+				}
+			}
+			for k, i := 0, exHint; k < 1+r.Intn(3); k++ {
+				i += uint32(1 + r.Intn(3))
+				pay(0, i)
+				muEx = int(i)
+			}
+			if r.Chance(60) {
+				for k, i := 0, inHint; k < 1+r.Intn(3); k++ {
+					i += uint32(r.Intn(3))
+					if k > 0 && r.Chance(50) {
+						i++
+					}
+					pay(1, i)
+					muIn = int(i)
+				}
+			}
+			// one payment per block (the restore walks blocks; discoveries come one by one)
+			for _, o := range outs {
+				b := node.MakeBlock(node.Tip(), []sim.Out{o}, nil)
+				if err := node.Attach(b); err != nil {
+					return fmt.Errorf("attach: %v", err)
+				}
+			}
+			stats["restore_with_discovery"]++
+		}
+		// opened after the payments: Start() catches up with the node before the restore begins
 		w3, err := simx.Open(node, root+"/i3", pub)
 		if err != nil {
 			return err
 		}
-		variant, vname = respace(r, mnemonic)
-		exHint = []uint32{0, uint32(len(l2)), uint32(len(l2)) + 2, 1}[r.Intn(4)]
-		inHint = []uint32{0, 0, 2}[r.Intn(3)]
 		sum3, err := w3.WM.ImportWalletWithMnemonic(&keystore.WalletParams{Version: keystore.KeystoreVersionLatest, Mnemonic: variant,
 			Remarks: remark, PrivatePassphrase: []byte(pass), ExternalIndex: exHint, InternalIndex: inHint, AddressGapLimit: sim.Cur.GapLimit})
 		if err != nil {
 			w3.Stop()
-			fmt.Fprintf(out, "I\t%d\timport-mnemonic:%s:%d:%d\t-\t-\t-\timport-failed:%s\t-\n", n, vname, exHint, inHint, strings.ReplaceAll(err.Error(), "\t", " "))
+			fmt.Fprintf(out, "I\t%d\timport-mnemonic:%s:%d:%d:%d:%d\t-\t-\t-\timport-failed:%s\t-\n", n, vname, exHint, inHint, muEx, muIn, strings.ReplaceAll(err.Error(), "\t", " "))
 		} else {
 			if !w3.WaitTasks(20 * time.Second) {
 				w3.Stop()
@@ -547,7 +587,7 @@ func runOne(seed uint64, n int, out *bufio.Writer) error {
 			if mn3, _, err := w3.WM.GetMnemonic(sum3.WalletID, pass); err != nil || mn3 != mnemonic {
 				sc = fmt.Sprintf("revealed-mnemonic-differs:%v:%s", err, hx([]byte(mn3)))
 			}
-			emitI(out, n, fmt.Sprintf("import-mnemonic:%s:%d:%d", vname, exHint, inHint), sum3.WalletID, cnt, l3, sc)
+			emitI(out, n, fmt.Sprintf("import-mnemonic:%s:%d:%d:%d:%d", vname, exHint, inHint, muEx, muIn), sum3.WalletID, cnt, l3, sc)
 			w3.Stop()
 			// ... and what the restore WROTE is what it showed: reopen the instance (the address table is rebuilt from the
 			// stored public-key rows and counters), same addresses on both branches, every address still signs with its key
